@@ -713,6 +713,10 @@ fn apply_sack_to_sent_queue(
 impl<'a> Drop for SctpCleanupGuard<'a> {
     fn drop(&mut self) {
         *self.inner.state.lock() = SctpState::Closed;
+        // The association can also end without close(): peer ABORT/SHUTDOWN,
+        // heartbeat or INIT timeout, transport loss. Wake senders parked in
+        // send_data_raw()'s flow-control loop so they see Closed and return.
+        self.inner.flow_control_notify.notify_waiters();
 
         let channels = self.inner.data_channels.lock();
         for weak_dc in channels.iter() {
